@@ -812,7 +812,17 @@ func (g *Gen) convert(st *State, v Val, from, to types.Type) Val {
 			et := sv.Elem.Underlying().(*types.Basic)
 			if et.Kind() == types.Uint8 {
 				h := g.heapTerm(st, heapKey(typeKey(sv.Elem), nil, ""), nestSort(2, "Int"))
-				return StrV{"(select " + h + " " + sv.Ref + ")", sv.Off, sv.Len}
+				res := StrV{"(select " + h + " " + sv.Ref + ")", sv.Off, sv.Len}
+				// string(b) copies: the result is not a view of anybody's memory (uf_viewref: see ByteToStringUnsafe in contracts-lib)
+				if !g.bv {
+					name := symq("uf_viewref")
+					if !g.declared[name] {
+						g.declared[name] = true
+						g.emit("(declare-fun " + name + " ((Array Int Int) Int Int) " + g.intSort() + ")")
+					}
+					g.assume(st, "(= ("+name+" "+res.Arr+" "+res.Off+" "+res.Len+") 0)")
+				}
+				return res
 			}
 		}
 		g.note("convert", "conversion to string: result unconstrained")
